@@ -37,10 +37,11 @@ VARIABLES pt,             \* parameter point of this session
           unk,            \* tab_nb_unknown_symbols
           deg,            \* tab_nb_enc_symbols_per_equ
           ct,             \* tab_const_term_of_equ : row -> NoVal or partial sum
+          nrep,           \* nb_repair_symbol_ready
           rcvd,           \* history: ESIs submitted by the application
           nullderef       \* history: a NULL partial sum was handed to the recursion
 
-vars == <<pt, tab, M, unk, deg, ct, rcvd, nullderef>>
+vars == <<pt, tab, M, unk, deg, ct, nrep, rcvd, nullderef>>
 
 Code == [ p \in Points |-> Rfc5170(p.k, p.r, p.N1, p.seed) ]
 HOf(p) == Code[p].H
@@ -103,14 +104,14 @@ Step3(p, st, reg, idx) ==           \* idx walks Len(reg) .. 1
 
 Inject(p, st, esi, v) ==
     IF st.tab[esi] # NoVal THEN st                                   \* step 0
-    ELSE LET st1 == [st EXCEPT !.tab[esi] = v]                       \* step 1
+    ELSE LET st1 == [st EXCEPT !.tab[esi] = v, !.nrep = IF esi >= p.k THEN st.nrep + 1 ELSE st.nrep]   \* step 1
          IN  IF esi < p.k /\ IsComplete(p, st1) THEN st1
              ELSE LET rows == SetToSortSeq(ColRows(st1, esi), LAMBDA a, b : a < b)     \* column traversal, increasing row
                       a2   == FoldLeft(LAMBDA acc, row : Step2Row(p, acc, row, esi, v),
                                        [st |-> st1, reg |-> <<>>], rows)
                   IN  Step3(p, a2.st, a2.reg, Len(a2.reg))
 
-StateRec == [ tab |-> tab, M |-> M, unk |-> unk, deg |-> deg, ct |-> ct, bad |-> nullderef ]
+StateRec == [ tab |-> tab, M |-> M, unk |-> unk, deg |-> deg, ct |-> ct, nrep |-> nrep, bad |-> nullderef ]
 
 InitRec(p) ==
     LET H  == HOf(p)
@@ -119,18 +120,19 @@ InitRec(p) ==
                 unk |-> [ row \in Rows(p) |-> Cardinality(H[row + 1]) ],
                 deg |-> [ row \in Rows(p) |-> Cardinality(H[row + 1]) ],
                 ct  |-> [ row \in Rows(p) |-> NoVal ],
+                nrep |-> 0,
                 bad |-> FALSE ]
     IN  IF ClaimsNull(p) THEN Inject(p, s0, N(p) - 1, {}) ELSE s0
 
 Init ==
     /\ pt \in Points
     /\ LET s == InitRec(pt)
-       IN  tab = s.tab /\ M = s.M /\ unk = s.unk /\ deg = s.deg /\ ct = s.ct /\ nullderef = s.bad
+       IN  tab = s.tab /\ M = s.M /\ unk = s.unk /\ deg = s.deg /\ ct = s.ct /\ nrep = s.nrep /\ nullderef = s.bad
     /\ rcvd = {}
 
 Recv(e) ==
     LET s == Inject(pt, StateRec, e, CwTab[pt][e])
-    IN  /\ tab' = s.tab /\ M' = s.M /\ unk' = s.unk /\ deg' = s.deg /\ ct' = s.ct /\ nullderef' = s.bad
+    IN  /\ tab' = s.tab /\ M' = s.M /\ unk' = s.unk /\ deg' = s.deg /\ ct' = s.ct /\ nrep' = s.nrep /\ nullderef' = s.bad
         /\ rcvd' = rcvd \cup {e}
         /\ UNCHANGED pt
 
@@ -155,6 +157,7 @@ ItIsPeeling ==
     /\ Complete <=> Src(pt) \subseteq Closure
 
 CountersSane ==
+    /\ nrep = Cardinality({ e \in Known : e >= pt.k })
     /\ \A row \in Rows(pt) : deg[row] = Cardinality({ e \in M : e[1] = row })
     /\ \A row \in Rows(pt) : unk[row] >= 0 /\ deg[row] >= 0
 
